@@ -130,6 +130,74 @@ def _batch(kind: str) -> pa.RecordBatch:
 
 UTC = dt.timezone.utc
 
+# ------------------------------------------------------------------------------------------ hypothesis pools
+SEED = 0            # set by the drivers from ctx.seed
+_POOLS: dict = {}
+
+
+def _strategy(leaf: str, k: str):
+    """hypothesis strategy for the bulk members of a value class (None = the class has only fixed members)"""
+    from hypothesis import strategies as st
+
+    if leaf in INT_RANGE:
+        lo, hi = INT_RANGE[leaf]
+        if k == "neg" and lo < 0:
+            return st.integers(lo, -1)
+        if k == "mid":
+            return st.integers(1, hi)
+        return None
+    if leaf == "float" and k == "typical":
+        return st.floats(allow_nan=False, allow_infinity=False, width=64)
+    if leaf == "f32" and k == "typical":
+        return st.floats(allow_nan=False, allow_infinity=False, width=32)
+    if leaf == "f32" and k == "inexact":
+        return st.floats(min_value=-1e30, max_value=1e30, allow_nan=False, width=64).filter(lambda x: f32_nearest(x) != x)
+    if leaf == "str" and k == "ascii":
+        return st.text(alphabet=st.characters(min_codepoint=1, max_codepoint=127), min_size=1, max_size=200)
+    if leaf == "str" and k == "nonascii":
+        return st.text(min_size=1, max_size=200).filter(lambda x: any(ord(ch) > 127 for ch in x) and "\x00" not in x)
+    if leaf == "str" and k == "nul":
+        return st.text(max_size=40).map(lambda x: x + "\x00" + x[::-1])
+    if leaf == "bytes" and k == "long":
+        return st.binary(min_size=257, max_size=6000)
+    if leaf == "bytes" and k == "nul_ff":
+        return st.binary(min_size=1, max_size=256)
+    if leaf == "dec" and k == "neg":
+        return st.decimals(min_value=decimal.Decimal("-99999999.99"), max_value=decimal.Decimal("-0.01"), places=2)
+    if leaf == "ts_us" and k == "micro":
+        return st.datetimes(min_value=dt.datetime(1, 1, 1), max_value=dt.datetime(9999, 12, 31, 23, 59, 59, 999999))
+    if leaf == "ts_tz" and k == "offset":
+        return st.datetimes(min_value=dt.datetime(1900, 1, 1), max_value=dt.datetime(2200, 1, 1),
+                            timezones=st.sampled_from([dt.timezone(dt.timedelta(minutes=m)) for m in (-720, -90, 1, 330, 840)]))
+    if leaf == "date" and k == "epoch":
+        return st.dates()
+    if leaf == "time" and k == "max":
+        return st.times()
+    if leaf == "dur" and k in ("neg", "big"):
+        return st.timedeltas(min_value=dt.timedelta(days=-(10**5)), max_value=dt.timedelta(microseconds=-1)) if k == "neg" \
+            else st.timedeltas(min_value=dt.timedelta(days=1), max_value=dt.timedelta(days=10**5))
+    return None
+
+
+def pool(leaf: str, k: str) -> list:
+    """Seeded bulk members of a class, drawn once per run from a hypothesis strategy."""
+    key = (leaf, k)
+    if key not in _POOLS:
+        strat = _strategy(leaf, k)
+        vals: list = []
+        if strat is not None:
+            from hypothesis import HealthCheck, Phase, given, seed, settings
+
+            @seed(SEED)
+            @settings(max_examples=40, database=None, deadline=None, phases=[Phase.generate], suppress_health_check=list(HealthCheck))
+            @given(strat)
+            def draw(x):
+                vals.append(x)
+
+            draw()
+        _POOLS[key] = vals
+    return _POOLS[key]
+
 
 def leaf_values(leaf: str, k: str, rng, n: int) -> list:
     """Concrete values of value class k of a leaf: boundaries exact first, then seeded members (at most n)."""
@@ -183,6 +251,11 @@ def leaf_values(leaf: str, k: str, rng, n: int) -> list:
         out = [_batch(k)]
     else:
         out = [(1, 2)] if leaf == "tuple" else [{1}]
+    bulk = pool(leaf, k)
+    if bulk:
+        # boundaries / fixed members first, then seeded members of the class drawn by hypothesis
+        fixed = out[: max(1, n - 1)] if len(out) >= n else out
+        return fixed + [rng.choice(bulk) for _ in range(max(1, n - len(fixed)))]
     return out[: max(1, n)] if len(out) > n else out
 
 
